@@ -448,19 +448,25 @@ theorem arrayAssignments_id {addr : Nid → Nat} {d : Nid} {ps : List (Nid × Ni
   intro kv hkv
   simpa using hd kv hkv
 
-/-- `create_node` on a content that already exists returns the existing node, state unchanged -/
+/-- `create_node` on a content that already exists leaves the state unchanged and returns the
+    existing node — or raises, when the type checker rejects it (Python re-checks on this path) -/
 theorem createNode_existing {s : Mgr} (hs : Inv s) {c : Content} {i : Nid} (h : (c, i) ∈ s.formulae) :
-    createNode c s = (.ok i, s) := by
-  unfold createNode
-  have hv : c.ids.all s.validId = true := by
-    rw [List.all_eq_true]
-    intro j hj
-    have := hs.closed c i h j hj
-    exact validId_iff.mpr ⟨this.1, Nat.lt_trans this.2 (hs.range _ _ h).2⟩
-  rw [if_pos hv]
-  cases ha : assoc c s.formulae with
-  | none => exact absurd h (assoc_none ha i)
-  | some j => rw [hs.tfun c i j h (assoc_some ha)]
+    (createNode c s).2 = s ∧ ∀ j, (createNode c s).1 = .ok j → j = i := by
+  have hu : createNodeU c s = (.ok i, s) := by
+    unfold createNodeU
+    have hv : c.ids.all s.validId = true := by
+      rw [List.all_eq_true]
+      intro j hj
+      have := hs.closed c i h j hj
+      exact validId_iff.mpr ⟨this.1, Nat.lt_trans this.2 (hs.range _ _ h).2⟩
+    rw [if_pos hv]
+    cases ha : assoc c s.formulae with
+    | none => exact absurd h (assoc_none ha i)
+    | some j => rw [hs.tfun c i j h (assoc_some ha)]
+  refine ⟨by rw [createNode_state, hu], fun j hj => ?_⟩
+  have := ((createNode_ok_iff c s j).mp hj).1
+  rw [hu] at this
+  cases this; rfl
 
 /-- a node of `src` is its own faithful copy in any extension of `src` -/
 theorem copy_self {src tgt : Mgr} (hsrc : Inv src) (ht : Inv tgt) (he : Ext src tgt) {a : Nid}
@@ -535,11 +541,14 @@ theorem recSpec_array_same {src : Mgr} (hsrc : Inv src) (addr : Nid → Nat) (it
       have hrun' : (create ⟨NT.ARRAY_VALUE, d :: flattenPairs ps, .ty it⟩).run t1 = (r, tgt') := by
         rw [← hrun]
         simp only [mkArray, Prog.run, sortByAddr_sorted hsort, arrayCheck_none hall hnd, arrayAssignments_id hsort hnd]
-      rw [create_run, createNode_existing h1.inv (he1.sub _ hc)] at hrun'
-      simp only [Prod.mk.injEq] at hrun'
-      obtain ⟨rfl, rfl⟩ := hrun'
+      rw [create_run] at hrun'
+      have hex := createNode_existing h1.inv (he1.sub _ hc)
+      rw [hrun'] at hex
+      obtain ⟨hst, hres⟩ := hex
+      simp only at hst
+      subst hst
       refine ⟨h1.inv, h1.ext, fun b hb1 hb2 => by omega, fun j hj => ?_⟩
-      cases hj
+      rw [hres j hj]
       exact copy_self hsrc h1.inv he1 hi0.1 hi0.2
 
 /-- Contents the public constructors produce — all 66 node types.  `same = true` (rebuild in
